@@ -56,6 +56,9 @@ CheckMatch(e) ==
 Judge(e) ==
   CASE e.check = "match" -> CheckMatch(e)
     [] e.check = "rank" -> CheckRank(D, docs, e, l, info.scn)
+    [] e.check = "paging" -> CheckPaging(D, docs, e, l, info.scn)
+    [] e.check = "stale" -> CheckStale(e, l, info.scn)
+    [] e.check = "same" -> CheckSame(e, l, info.scn)
     [] OTHER -> Say("TOOL", e.prop, e, "unknown check kind", "")
 
 TNext ==
